@@ -35,6 +35,7 @@ struct MockT {
   MAKE_CONST_MOCK1(c, int(int));
   MAKE_MOCK1(u, int(std::unique_ptr<Tracked>));
   MAKE_MOCK1(s, std::string(const std::string&));
+  MAKE_CONST_MOCK1(k, const int&(const int&));
 };
 
 using EP = std::unique_ptr<trompeloeil::expectation>;
@@ -75,6 +76,7 @@ void se(int id, int k, int snap, const void* a1, const void* a2 = nullptr);
 int ret(int id, int snap, const void* a1, const void* a2 = nullptr);
 int& retref(int id, int snap, int& target, const void* a1);
 std::string rets(int id, int snap, const void* a1);
+const int& retcref(int id, int snap, const int& target, const void* a1);
 std::runtime_error thr_std(int id, int snap);
 int thr_int(int id, int snap);
 
